@@ -1,7 +1,45 @@
 import PydlVerif.Model.JsonUtil
+import PydlVerif.Model.Sphere
 open Lean
 namespace PydlVerif.Driver.C04
+open PydlVerif PydlVerif.Sphere
 
-def handle (_j : Json) : Except String Json := throw "C04: no model operations yet"
+def pairsJ (l : List (Pair Float)) : Json :=
+  Json.mkObj [("m1", J.ofList J.ofNat (l.map (·.1))), ("m2", J.ofList J.ofNat (l.map (·.2.1))),
+              ("d", J.ofList J.ofFloat (l.map (·.2.2)))]
+
+def gridJ (g : Grid Float) : List (String × Json) :=
+  [("nDec", J.ofNat g.nDec), ("decBounds", J.ofArray J.ofFloat g.decBounds),
+   ("raOffset", J.ofFloat g.raOffset), ("nRa", J.ofArray J.ofNat g.nRa),
+   ("raBounds", J.ofArray (J.ofArray J.ofFloat) g.raBounds)]
+
+def handle (j : Json) : Except String Json := do
+  let op ← J.fStr j "op"
+  match op with
+  | "match" =>
+    let ra1 ← J.fFloats j "ra1"
+    let dec1 ← J.fFloats j "dec1"
+    let ra2 ← J.fFloats j "ra2"
+    let dec2 ← J.fFloats j "dec2"
+    let ml ← J.fFloat j "ml"
+    let cs ← J.fOpt J.float j "cs"
+    let mm ← J.fInt j "maxmatch"
+    match spherematch argsortFloat ra1 dec1 ra2 dec2 ml cs mm with
+    | .error e => pure (Json.mkObj [("err", Json.str e)])
+    | .ok r =>
+      pure (Json.mkObj (gridJ r.grid ++
+        [("chunkList", J.ofArray (J.ofArray (fun (x : CellSt) => J.ofList J.ofNat x.1)) r.chunkList),
+         ("nraw", J.ofNat r.raw.length), ("out", pairsJ r.out)]))
+  | "greedy" =>
+    -- the maxmatch bookkeeping alone on an abstract, already sorted pair list
+    let m1 ← J.fNats j "m1"
+    let m2 ← J.fNats j "m2"
+    let k ← J.fNat j "k"
+    let l : List (Pair Float) := (m1.zip m2).map fun (a, b) => (a, b, 0.0)
+    pure (pairsJ (greedy k l))
+  | "gcirc" =>
+    let v ← J.fFloats j "v"
+    pure (J.ofFloat (gcircDeg (v.getD 0 0) (v.getD 1 0) (v.getD 2 0) (v.getD 3 0)))
+  | _ => throw s!"C04: unknown op {op}"
 
 end PydlVerif.Driver.C04
